@@ -14,7 +14,74 @@ pub struct Case {
     pub classes: Vec<&'static str>,
 }
 
+/// The dependency is a trait object behind a reference: `&dyn Tr` is `&'a (dyn Tr + 'a)`, an object that may borrow from the caller's
+/// frame; the trait has to be there for it (called on an object that borrows a local of `run`).
+fn gen_dyn_case(t: &mut Tape, feature_unimock: bool) -> Case {
+    let is_async = t.chance(1, 3);
+    let maybe_send = is_async && t.chance(1, 3);
+    let obj = if is_async && !maybe_send { *t.pick(&["(dyn Tr + Send + Sync)", "(dyn Tr + Sync)", "(dyn Tr + Sync + '_)"]) } else { *t.pick(&["dyn Tr", "dyn Tr", "(dyn Tr + Send)", "(dyn Tr + Send + Sync)", "(dyn Tr + '_)"]) };
+    let named_lt = t.chance(1, 3);
+    let borrowed_ret = t.chance(1, 3);
+    let dty = if named_lt { format!("&'d {obj}") } else { format!("&{obj}") };
+    let ret = if borrowed_ret { if named_lt { "&'d i32" } else { "&i32" } } else { "i32" };
+    let lt_decl = if named_lt { "<'d>" } else { "" };
+    let q = if is_async { "async " } else { "" };
+    let aw = if !is_async {
+        ""
+    } else if maybe_send {
+        "let __rc = ::std::rc::Rc::new(0u8); rt::yield_once().await; let _ = *__rc; "
+    } else {
+        "rt::yield_once().await; "
+    };
+    let body = if borrowed_ret { "let _ = x; deps.r()" } else { "deps.t() + x" };
+    let fn_src = format!("{q}fn the_fn{lt_decl}(deps: {dty}, x: i32) -> {ret} {{ {aw}{body} }}");
+    let mut opts: Vec<String> = vec![];
+    for _ in 0..t.weighted(&[4, 2, 1]) {
+        let o = *t.pick(&["mock_api = TheMock", "unimock = false", "mockall = false", "export = false"]);
+        if !opts.iter().any(|x| x.split(' ').next() == o.split(' ').next()) {
+            opts.push(o.to_string());
+        }
+    }
+    if maybe_send {
+        let at = t.choose(opts.len() + 1);
+        opts.insert(at, "?Send".to_string());
+    }
+    let attr = format!("{}TheTrait{}", *t.pick(&["", "pub ", "pub(crate) "]), opts.iter().map(|o| format!(", {o}")).collect::<String>());
+    let mut src = String::from(
+        "#![allow(warnings)]\nuse crate::rt;\npub trait Tr { fn t(&self) -> i32; fn r(&self) -> &i32; }\npub struct S<'a>(pub &'a i32);\nimpl Tr for S<'_> { fn t(&self) -> i32 { *self.0 } fn r(&self) -> &i32 { self.0 } }\n",
+    );
+    src.push_str(&format!("/*GEN*/ #[::entrait::entrait({attr})]\n{fn_src}\n"));
+    let wrap = |e: &str| if is_async { format!("rt::block_on({e})") } else { e.to_string() };
+    src.push_str("pub fn run() -> Vec<String> {\n    let mut fails: Vec<String> = vec![];\n");
+    src.push_str(&format!("    let local = 5;\n    let s = S(&local);\n    let d: &{obj} = &s;\n    let direct = {};\n", wrap("the_fn(d, 2)")));
+    src.push_str(&format!("/*GEN*/ let via = {};\n", wrap("d.the_fn(2)")));
+    src.push_str("/*GEN*/ rt::expect_eq(&mut fails, \"route the object itself (it borrows a local of the caller): result\", &via, &direct);\n");
+    src.push_str(&format!("    static FORTY: i32 = 40;\n    let st = S(&FORTY);\n    let ds: &{} = &st;\n    let direct = {};\n", obj.replace("'_", "'static"), wrap("the_fn(ds, 2)")));
+    src.push_str(&format!("/*GEN*/ let via = {};\n", wrap("ds.the_fn(2)")));
+    src.push_str("/*GEN*/ rt::expect_eq(&mut fails, \"route an object that borrows nothing: result\", &via, &direct);\n");
+    src.push_str("    fails\n}\n");
+    let mut classes = vec!["shape:trait_object"];
+    if named_lt {
+        classes.push("reference_with_explicit_lifetime");
+    }
+    if is_async {
+        classes.push("async");
+    }
+    if maybe_send {
+        classes.push("maybe_send_with_not_send_future");
+    }
+    if borrowed_ret {
+        classes.push("borrowed_return");
+    }
+    let twin: String = src.lines().filter(|l| !l.starts_with("/*GEN*/")).collect::<Vec<_>>().join("\n");
+    let summary = format!("#[entrait({attr})] {fn_src} [{}]", if feature_unimock { "feature unimock" } else { "no features" });
+    Case { src, twin, summary, nontrivial: true, classes }
+}
+
 pub fn gen_case(t: &mut Tape, feature_unimock: bool) -> Case {
+    if t.chance(1, 8) {
+        return gen_dyn_case(t, feature_unimock);
+    }
     // (type expression, constructor expression, expression yielding a &str stored in the value or a static)
     let shapes: [(&str, &str, &str); 8] = [
         ("<Sel as HasConf>::C", "Conf { name: String::from(\"n7\") }", "qualified_path"),
